@@ -31,6 +31,8 @@ pub struct World {
     pub rec: Arc<Recorder>,
     /// Ack ids received per subscription name since its last successful creation, in order.
     pub deliveries: Mutex<HashMap<String, Vec<String>>>,
+    /// Record the characters of name fields and the decodability of page tokens (inputs scenarios).
+    pub inputs: std::sync::atomic::AtomicBool,
     /// Keeps the instance alive.
     pub app: Deltio,
     pub start: Instant,
@@ -100,12 +102,35 @@ impl World {
             registry,
             rec,
             deliveries: Mutex::new(HashMap::new()),
+            inputs: std::sync::atomic::AtomicBool::new(false),
             app,
             start,
         })
     }
 
     pub fn ev(&self, kind: &str, fields: Value) {
+        let mut fields = fields;
+        if kind == "inv" && self.inputs.load(std::sync::atomic::Ordering::SeqCst) {
+            if let Value::Object(map) = &mut fields {
+                let mut extra = Vec::new();
+                for key in ["name", "topic", "sub"] {
+                    if let Some(Value::String(s)) = map.get(key) {
+                        let limited: Vec<String> = s.chars().take(600).map(|c| c.to_string()).collect();
+                        extra.push((format!("{}_chars", key), json!(limited)));
+                        extra.push((format!("{}_long", key), json!(s.chars().count() > 600)));
+                    }
+                }
+                if let Some(Value::String(t)) = map.get("token") {
+                    use base64::Engine;
+                    let ok = t.is_empty()
+                        || base64::engine::general_purpose::STANDARD.decode(t).map(|b| b.len() == 8).unwrap_or(false);
+                    extra.push(("token_decodable".to_string(), json!(ok)));
+                }
+                for (k, v) in extra {
+                    map.insert(k, v);
+                }
+            }
+        }
         self.rec.push(kind, fields);
     }
 
